@@ -1,7 +1,7 @@
 META = {
     "level": "model_checking",
     "technique": "TLA+ model of one direction of the binary packet protocol (PacketLayer.tla: send_message, fragmented arrival, read_message, key switch, per-epoch compression stream) model-checked by TLC; TLC-generated behaviours replayed on two real Packetizers keyed through the real _activate_outbound/_activate_inbound for every cipher x MAC x compression; seeded long streams validated against the spec by TLC",
-    "text": "TLC checks on the model that the receiver stays positioned where the head packet was sealed (keys, sequence number, compression stream) and delivers exactly the sent sequence, for all interleavings of sends, key switches, fragment arrivals and reads, also with the receiver explored inside read_all while need_rekey is up (NeedRekeyException may only fire with nothing of the next packet consumed), with mutated models (stale inflater/deflater after a key switch, NeedRekeyException with a partly consumed header) shown to break it; TLC-simulated behaviours (length classes, fragment splits, key switches) are executed on real Packetizer pairs for all 216 suites and compared read by read; random streams of 1-200 messages up to 70000 bytes with random read fragmentation, socket timeouts and 0-3 key switches are logged and checked event by event by the trace spec",
+    "text": "TLC checks on the model that the receiver stays positioned where the head packet was sealed (keys, sequence number, compression stream) and delivers exactly the sent sequence, for all interleavings of sends, key switches, fragment arrivals and reads, also with the receiver explored inside read_all while need_rekey is up (NeedRekeyException may only fire with nothing of the next packet consumed), with mutated models (stale inflater/deflater after a key switch, NeedRekeyException with a partly consumed header, write_all skipping bytes after a send timeout) shown to break it; TLC-simulated behaviours (length classes, fragment splits, key switches) are executed on real Packetizer pairs for all 216 suites and compared read by read; random streams of 1-200 messages up to 70000 bytes with random read fragmentation, socket timeouts and 0-3 key switches are logged and checked event by event by the trace spec",
     "note": "trusted: TLC, the in-memory socket (harness/drivers/packet.py Wire), the harness stand-in for the key exchange result (K, H set directly; NEWKEYS handled like _parse_newkeys), message identification by byte equality; MAC/cipher primitives are the real ones, their cryptographic strength is not claimed",
 }
 import random
@@ -14,7 +14,8 @@ BASE = {"SeqMod": 4, "MaxSwitch": 2, "MaxTamper": 0, "MaxChunk": 5, "Stricts": "
 ALL_MODES = {"classic", "etm", "aead"}
 INV = ["TypeOK", "PrefixOnly", "NoAlien", "AllDelivered", "NeverFailsHonest", "SyncHonest", "Caught"]
 # stale inflater / deflater after a key switch; NeedRekeyException raised with part of a header already consumed
-MUTANTS = {"zin", "zout", "rekeydrop"}
+# write_all re-applying the byte count of the previous send() after a socket timeout
+MUTANTS = {"zin", "zout", "rekeydrop", "stalecount"}
 LEN_CLASSES = {"one", "bm1", "b", "bp1", "mid", "big"}
 
 
@@ -41,6 +42,8 @@ def render_len(lc, bsize, rnd):
 
 def cell_cuts(start, end, bsize, rnd):
     """absolute end offsets of the 4 cells of the packet occupying [start, end)"""
+    if end - start < bsize + 2:         # (cannot happen with a correct sender: the shortest packet is longer than a block)
+        return sorted(min(end, start + x) for x in (1, 2, 3)) + [end]
     a = start + rnd.randint(1, bsize - 1)
     b = start + bsize
     c = rnd.randint(b + 1, end - 1)
@@ -83,7 +86,30 @@ def replay(c, beh, suite, rnd):
     sig = []
     nread = 0
     same_comp = [x for x in P.suites() if x[2] == suite[2]]
-    for act, arg in beh["hist"]:
+    L.tx.sock.mode = "sched"
+    hist = beh["hist"]
+
+    def write_plan(at):
+        """how the sender's socket takes the packet handed to write_all at step `at`: the Write(k) / WTimeout steps that
+        follow, up to the step that completes the packet (the packet is cut in 4 cells)"""
+        plan, cells = [], 0
+        for a, b in hist[at + 1:]:
+            if a == "Write":
+                plan.append(("take", int(b)))
+                cells += int(b)
+                if cells >= 4:
+                    break
+            elif a == "WTimeout":
+                plan.append(("timeout",))
+            elif a in ("Send", "Switch"):
+                break
+        return plan
+    for at, (act, arg) in enumerate(hist):
+        if act in ("Write", "WTimeout"):
+            sig.append("w%s" % arg if act == "Write" else "wt")
+            continue            # executed inside the send_message call of the packet they belong to
+        if act in ("Send", "Switch"):
+            L.tx.sock.next_packet(write_plan(at), 4)
         if act == "Send":
             n = render_len(arg, info["bsize"], rnd)
             msg = P.make_message(rnd, n, len(led.sent) + 1)
@@ -148,7 +174,10 @@ def replay(c, beh, suite, rnd):
     c.case(key=("rp", suite, " ".join(sig)),
            sample=None if len(c.samples) >= 3 else {"stage": "replay", "suite": "/".join(suite), "strict": beh["strict"], "steps": " ".join(sig),
                    "socket_timeouts": L.wire.timeouts, "recv_calls": L.wire.recvs,
+                   "partial_sends": L.tx.sock.partial, "send_timeouts": L.tx.sock.timeouts,
                    "need_rekey_exceptions": L.rx.need_rekey_exceptions})
+    c.extra["partial_sends_in_replays"] = c.extra.get("partial_sends_in_replays", 0) + L.tx.sock.partial
+    c.extra["send_timeouts_in_replays"] = c.extra.get("send_timeouts_in_replays", 0) + L.tx.sock.timeouts
     return L.rx.need_rekey_exceptions
 
 
@@ -164,7 +193,7 @@ def random_length(rnd, bsize):
     return rnd.choice([32768, 65535, 65536, 69999, 70000, rnd.randint(20000, 70000)])
 
 
-def record_stream(c, suite, rnd, nmsgs, nswitch, strict, need=False):
+def record_stream(c, suite, rnd, nmsgs, nswitch, strict, need=False, psend=False):
     """code -> spec: one seeded stream; returns the event list"""
     info = P.suite_info(suite)
     try:
@@ -176,6 +205,9 @@ def record_stream(c, suite, rnd, nmsgs, nswitch, strict, need=False):
                     "NEWKEYS (%s, strict=%s)" % (type(e).__name__, e, "/".join(suite), strict), {"suite": suite})
         return None
     L.wire.mode = "rand"
+    if psend:
+        # the sender's socket takes packets piece by piece and times out in between (write_all has to resume exactly)
+        L.tx.sock.mode = "rand"
     if need:
         # the receiver is where a transport is between its KEXINIT and the peer's NEWKEYS: need_rekey() is up, so a
         # socket timeout before the first byte of a packet raises NeedRekeyException (and only then)
@@ -242,7 +274,7 @@ def record_stream(c, suite, rnd, nmsgs, nswitch, strict, need=False):
         ev.append({"a": "Fail", "i": 0, "r": "LeftoverBytes", "got": 0, "seq": -1})
     ev.append({"a": "End", "i": 0, "r": "", "got": 0, "seq": -1})
     return {"strict": strict, "zlib": zl, "mode0": P.mode_of(suite), "ev": ev,
-            "meta": {"need_rekey_raised": need, "need_rekey_exceptions": L.rx.need_rekey_exceptions, "suite": "/".join(suite), "algorithms": algos, "messages": nmsgs, "switches": len(switch_at), "max_len": maxlen,
+            "meta": {"partial_sends": L.tx.sock.partial, "send_timeouts": L.tx.sock.timeouts, "need_rekey_raised": need, "need_rekey_exceptions": L.rx.need_rekey_exceptions, "suite": "/".join(suite), "algorithms": algos, "messages": nmsgs, "switches": len(switch_at), "max_len": maxlen,
                      "recv_calls": L.wire.recvs, "socket_timeouts": L.wire.timeouts}}
 
 
@@ -256,11 +288,12 @@ def run(c):
     if not c.quick:
         # the receiver explored inside read_all (header consumed in pieces, socket timeouts, need_rekey raised at any moment)
         # and key epochs that change the framing mode
-        c.mc_holds("PacketLayer", cfg_text(constants=dict(BASE, NMsgs=3, Partial=True, Modes={"classic", "etm"}), invariants=INV,
+        c.mc_holds("PacketLayer", cfg_text(constants=dict(BASE, NMsgs=3, MaxSwitch=1, Partial=True, Modes={"classic", "etm"}), invariants=INV,
                                            properties=["StopsAtFirstBad"]),
-                   name="honest network, inside read_all, need_rekey, modes classic/etm", timeout=1500)
-    r = c.mc_holds("PacketLayer", cfg_text(constants=dict(BASE, NMsgs=2, MaxSwitch=1, MaxChunk=4, Partial=True, Mutations=MUTANTS), invariants=INV),
-                   name="inside read_all with need_rekey + seeded defects %s" % sorted(MUTANTS), workers=1)
+                   name="honest network, inside read_all / write_all, need_rekey, modes classic/etm", timeout=1500)
+    r = c.mc_holds("PacketLayer", cfg_text(constants=dict(BASE, NMsgs=1 if c.quick else 2, MaxSwitch=1, MaxChunk=8, Partial=True,
+                                                          Stricts="@{TRUE}", Mutations=MUTANTS), invariants=INV),
+                   name="inside read_all / write_all with need_rekey + seeded defects %s" % sorted(MUTANTS), workers=1, timeout=1500)
     caught = {x[1] for x in r.printed("CAUGHT")}
     if caught != MUTANTS:
         raise Machinery("seeded defects not all noticed by the model's properties: %s of %s" % (sorted(caught), sorted(MUTANTS)))
@@ -294,7 +327,8 @@ def run(c):
         suite = suites[order[k % len(order)]]
         big = rnd.random() < (0.15 if c.quick else 0.3)
         nmsgs = rnd.randint(60, 200) if big else rnd.randint(1, 40)
-        t = record_stream(c, suite, rnd, nmsgs, rnd.randint(0, 3), rnd.random() < 0.5, need=rnd.random() < 0.5)
+        t = record_stream(c, suite, rnd, nmsgs, rnd.randint(0, 3), rnd.random() < 0.5, need=rnd.random() < 0.5,
+                          psend=rnd.random() < 0.5)
         if t is not None:
             batch.append(t)
     tv_consts = dict(BASE, NMsgs=100000, SeqMod=1073741824, MaxSwitch=1000, MaxChunk=1000, Stricts="@{TRUE, FALSE}", Zlibs="@{TRUE, FALSE}",
@@ -324,16 +358,21 @@ def run(c):
     n_exc_tv = sum(t["meta"]["need_rekey_exceptions"] for t in batch)
     if (n_exc == 0 or n_exc_tv == 0) and not c.violations and not c.known_hits:
         raise Machinery("need_rekey was raised but no read ever saw NeedRekeyException (%d / %d)" % (n_exc, n_exc_tv))
+    n_ps = sum(t["meta"]["partial_sends"] for t in batch)
+    if (n_ps == 0 or not c.extra.get("partial_sends_in_replays")) and not c.violations and not c.known_hits:
+        raise Machinery("the sending socket never took a packet in pieces")
+    c.extra["partial_sends_in_traces"] = n_ps
+    c.extra["send_timeouts_in_traces"] = sum(t["meta"]["send_timeouts"] for t in batch)
     c.extra["need_rekey_exceptions_in_replays"] = n_exc
     c.extra["need_rekey_exceptions_in_traces"] = n_exc_tv
     c.extra["suites"] = len(suites)
     c.extra["replayed_behaviours"] = nrp
     c.extra["messages_in_traces"] = sum(t["meta"]["messages"] for t in batch)
     c.rule = ("replay: TLC-simulated behaviours of PacketLayer_Gen (4 messages of length classes 1 / block-1 / block / block+1 / mid / "
-              "32-70 KB, <= 2 key switches each to a framing mode TLC picks, need_rekey raised on the receiver at a point TLC picks, every "
+              "32-70 KB, <= 2 key switches each to a framing mode TLC picks, need_rekey raised on the receiver at a point TLC picks, the sending socket taking each packet in the pieces and with the timeouts TLC picks, every "
               "fragment split of up to 6 cells with a socket timeout between fragments, strict kex on/off) x all %d cipher x MAC x compression "
               "suites, %d per suite; traces: seeded streams of 1-200 messages with lengths 1..70000 biased to block boundaries, random "
-              "recv() sizes and socket timeouts, 0-3 key switches (40 %% to other algorithms), need_rekey raised on the receiver in half of them, "
+              "recv() sizes and socket timeouts, 0-3 key switches (40 %% to other algorithms), need_rekey raised on the receiver in half of them, a sending socket that takes random parts and times out in half of them, "
               "read through the loop of Transport.run (NeedRekeyException -> read again); distinct = distinct (suite, step sequence with concrete lengths) / "
               "(suite, strict, shape) tuples" % (len(suites), per_suite))
     c.assumptions = ["both ends are given the same (K, H, session id) by the harness, as a completed key exchange would",
